@@ -86,6 +86,42 @@ CHECKS = {
     design_ref='DESIGN.md 5/C19',
     note=('Trusted: Coq kernel; ExtrOcamlBasic extraction (sample re-checked by vm_compute every run); OCaml driver and Python harness. Modelled, not verified: qvm/using.py and the USING branch of _exec_print. Python format/repr are re-implemented in Base/Dec.v and compared every run. Field boundaries come from the scanner.'),
     technique='Rocq proof over a hand-written Gallina model + differential correspondence against the implementation'),
+ 'C04': dict(
+    category='proof',
+    text=('33 closed Rocq theorems over Models/Layout.v (a faithful model of memlayout.py, the array header and the element index of _exec_arridx), for every record environment, declaration list, rank and bounds: every well-formed access path lies inside the frame or array segment; '
+          'distinct paths denote distinct cells (mixed-radix injectivity of row-major indexing); fields and elements are disjoint; STATIC names are distinct per (routine, name). Over the machine model Models/Cpu.v: store/storeidx/storeref change exactly one cell of one segment, reads change nothing, '
+          'an unset cell reads 0 or "", frame allocates a fresh segment whose locals are unset, by-value arguments become temporaries of the new frame and reference arguments stay the caller (segment, cell); arridx returns exactly elem_index. D14 and D15 are stated as _partial/_refuted theorems. '
+          'Tied to the code by the real memlayout functions on all declaration sequences of length <= 3/4 over 12 shapes, the real tick on constructed states for every memory instruction, and sentinel programs (write a distinct value to every location, read all back, by-reference chains, recursion) compiled by the real compiler at the six configurations and judged against an independent reference semantics.'),
+    design_ref='DESIGN.md 5/C04',
+    note=('Trusted: Coq kernel, ExtrOcamlBasic, OCaml driver, Python harness and its reference interpreter. Modelled, not verified: memlayout.py and the read*/readidx*/store*/deref*/refidx/arridx/frame instructions of cpu.py. '
+          'The code generator (gen_lvalue_ref, gen_code_for_args, gen_array_pass) is covered only by the sentinel correspondence. Open findings: D14, D15, D45-array-argument-reference.'),
+    technique='Rocq proof over hand-written Gallina model + differential correspondence (T-fn, T-isa, T-run sentinel programs)'),
+ 'C08': dict(
+    category='proof',
+    text=('Rocq theorems over the executable model of QvmCode.optimize and of the assembler offset computation (Models/Peephole.v): the assembler offsets, label addresses and code length ignore debug markers; optimize never moves or removes a marker and never rewrites across one; '
+          'with and without markers the level-2 code is reachable from the same unoptimised list by the seven (machine-level sound) rewrites, hence rewrite-equivalent. Per explored program, on the REAL artefacts: erase_marks(code with -g) = code without -g at levels 0/1, sections 1-3 byte-identical at every level, '
+          'acceptance identical, device events and outcome identical on the real machine (RESUME programs are the permitted exception), and the extracted model reproduces both real level-2 outputs from the real marked list.'),
+    design_ref='DESIGN.md 5/C08',
+    note=('Trusted: Coq kernel, extraction, OCaml driver, Python harness. The code generator is not modelled: that markers are the only difference between -g and no -g generation is checked per program (translation validation), not proved. Serialisation of the debug section is outside the model.'),
+    technique='Rocq proof over a hand-written model of the peephole pass/assembler offsets + per-program validation and differential correspondence'),
+ 'C14': dict(
+    category='proof',
+    text=('Rocq theorems about a lossless lexer for QBASIC text as qbee cuts it (Models/Lex.v): text and valid token layouts are in bijection; the canonical respelling canon is invariant under letter case of words, blanks and tabs between tokens (exact side condition), comment and empty-line changes and alternative relational spellings, '
+          'under all finite compositions of these in both directions (induction over compositions), and canon is idempotent. Tied to the code on every run: compile(t) and compile(canon t) have the same verdict and identical sections 1-4 at -O0 and -O2 over corpus + generated programs; seeded compositions of token-level and structural respellings '
+          '(including the unproved ones: colon join/split, LET, CALL forms, NEXT v, label renaming, renumbering, trailing colon, case in numbers) keep sections or device traces.'),
+    design_ref='DESIGN.md 5/C14',
+    note=('Trusted: Coq kernel, ExtrOcamlBasic, driver and Python harness. The pyparsing grammar is not modelled; that it factors through the tokens is tested, not proved. DATA payload and TAB handling carry known findings.'),
+    technique='Rocq proof over hand-written Gallina model + differential correspondence against the implementation'),
+ 'C13': dict(
+    category='proof',
+    text=('19 closed Rocq theorems over the executable model of the debugger evaluator (Models/DbgEval.v) on the machine model: purity (the evaluator is a function of heap and current frame and returns no state), unknown names, scalar locals/SHARED/parameters return the cell IRead (or read@ + deref) pushes for every declaration list, '
+          'array elements of every rank agree with IArridx + IDeref (nested-list indexing = row-major cell), unset elements read 0/"", record fields along any path read the cell at base + dotted_index, out-of-range and wrong-rank subscripts are evaluation errors, debugger arithmetic = the folder on the values read, INTEGER operators equal the run-time cell (guarded as fold_sound_int); '
+          'vm_compute refutations for D01, D43, STATIC, types-resolved-in-main, evaluation after finish, paths on scalars. Tied to the code by T-dbg: the real qvm.dbg.Cmd print inside generated programs x {-O0,-O2} that PRINT every probe themselves (reference = the typed cell handed to PRINT), full machine-state equality around every print, '
+          'and the extracted model on the same debug tables, memory and parsed tree.'),
+    design_ref='DESIGN.md 5/C13',
+    note=('Trusted: Coq kernel (incl. vm_compute), ExtrOcamlBasic, ocaml/driver.ml, Python harness (generator, typed-cell capture, state_out). Modelled, not verified: qvm/eval.py, find_routine, the evaluation half of do_print, Lvalue.type; arithmetic via Models/Fold.v, layout via Models/Layout.v. '
+          'Not modelled: the expression parser (the model receives the real tree), float text, QStruct/QArray dumps, function calls. Scalar/element/field theorems carry the premise "the type the debugger assigns is the declared one", false in general inside procedures (D49). Partial exactly where C02 is partial.'),
+    technique='Rocq proof over a hand-written Gallina model + differential correspondence judged against the program own values'),
 }
 
 ALL = ['C%02d' % i for i in range(1, 21)]
